@@ -814,6 +814,52 @@ def r6_graph_urls(ctx, rep):
            "FortranBase.__str__ no longer tests `visible` before emitting a link", py.nloc(fn))
 
 
+# collections whose members get_url() maps to '<page of the owner>#<anchor>' (FortranBase.get_url's
+# second isinstance tuple), directly or one procedure level down (arguments of contained procedures)
+ANCHORED_LISTS = ["variables", "args", "boundprocs", "finalprocs", "common", "enums", "functions", "subroutines",
+                  "modfunctions", "modsubroutines", "modprocedures"]
+PROC_LISTS = ["functions", "subroutines", "modfunctions", "modsubroutines", "modprocedures"]
+
+
+def r8_anchor_targets_exist(ctx, rep):
+    """[[owner:item]] and entity links resolve to '<owner page>#<item.anchor>': on every page template the
+    element with that id must be emitted for each anchored collection the payload can own - and not only
+    under a run-time condition such as `.visible` / a summary flag."""
+    py, j = ctx.py, ctx.j
+    pages = doc_pages(py)
+    for pcls, (tpl, key) in sorted(pages.items()):
+        if pcls in ("FilePage", "NamelistPage", "GenericInterfacePage", "InterfacePage", "AbsIntPage"):
+            continue
+        outs, _ = j.expand(tpl)
+        ids: Dict[str, List[List[str]]] = {}
+        for o in outs:
+            if o.ctx == ("attr", "id") and "<in-test>" not in o.macros and o.sym.endswith(".anchor"):
+                dyn = [c[0] for c in o.conds if c[1] and re.search(r"\.visible\b|\bsummary\b", sym(c[2]))]
+                ids.setdefault(o.sym, []).append(dyn)
+        owned: Set[str] = set()
+        for c in PAGE_PAYLOAD_CLASSES[pcls]:
+            owned |= all_self_attrs(py, c)
+        wanted = [f"{key}.{l}[*].anchor" for l in ANCHORED_LISTS if l in owned]
+        wanted += [f"{key}.{l}[*].args[*].anchor" for l in PROC_LISTS if l in owned]
+        for w in wanted:
+            coll = w.split(".")[1].split("[")[0]
+            if (tpl, coll) in EMPTY_BY_CONSTRUCTION:
+                continue
+            recs = ids.get(w)
+            if recs is None:
+                # collections without a section are reported by R2 (sidebar); only nested args matter here
+                if ".args[*]" not in w:
+                    continue
+                rep.ob(f"page={tpl} anchor {w}", False, f"no element with id {{{{ {w} }}}} is emitted on {tpl}: links to "
+                       f"arguments of contained procedures ([[proc:arg]]) have no target", f"ford/templates/{tpl}")
+                continue
+            ok = any(not dyn for dyn in recs)
+            rep.ob(f"page={tpl} anchor {w}", ok,
+                   "id emitted unconditionally for every member" if ok else
+                   f"the id {{{{ {w} }}}} is only emitted under {recs[0]}: for members where that run-time flag is set the "
+                   f"anchor that get_url()/[[...]] links point to does not exist", f"ford/templates/{tpl}")
+
+
 def r7_pageable_entities_get_pages(ctx, rep):
     """every entity whose get_url() names its own page (get_dir() is not None) is gathered into a
     project list from which pages are written."""
@@ -867,6 +913,7 @@ def r7_pageable_entities_get_pages(ctx, rep):
 
 RULES = [
     RuleSpec("C09.R7", r7_pageable_entities_get_pages, "entities that have a page URL get a page", floor=12),
+    RuleSpec("C09.R8", r8_anchor_targets_exist, "anchors of linkable members are emitted unconditionally", floor=30),
     RuleSpec("C09.R1", r1_list_pages, "list-page / singular-link guard implies page creation", floor=12),
     RuleSpec("C09.R2", r2_anchors, "sidebar anchor use implies anchor definition", floor=30),
     RuleSpec("C09.R3", r3_relurl, "link-bearing values pass relurl", floor=25),
